@@ -29,7 +29,13 @@ func verifDeclLines(kw string, nameLen int, tails []string) (names []string, lin
 		names = append(names, nm)
 		// the grammar admits any run of blanks and tabs between the keyword(s) and the name
 		sep := verifSepList()[zzverif.Choose("separator", len(verifSepList()))]
-		lines = append(lines, indent+strings.ReplaceAll(kw, " ", sep)+sep+nm+tail)
+		// CRSEG=1: the declaration may stand behind a lone carriage return inside the line (a line break of the
+		// grammar that the merger's split at line feeds does not see)
+		pre := ""
+		if zzverif.Param("CRSEG", 0) == 1 {
+			pre = []string{"", "\r", "  relations\r", "x # c\r"}[zzverif.Choose("cr-prefix", 4)]
+		}
+		lines = append(lines, pre+indent+strings.ReplaceAll(kw, " ", sep)+sep+nm+tail)
 	}
 	return
 }
@@ -82,8 +88,9 @@ func VerifC16_Column() {
 	kws := []string{"type", "extend type", "define", "condition"}
 	kw := kws[zzverif.Choose("keyword", len(kws))]
 	sep := verifSepList()[zzverif.Choose("separator", len(verifSepList()))]
-	line := indent + kw + sep + nm + []string{"", ": a", "(x: int) {", " # t", "  ", "\t", "\r", ": a \r", ": [user, group#" + nm + "]  "}[zzverif.Choose("tail", 9)]
-	nameAt := len(indent) + len(kw) + len(sep)
+	pre := []string{"", "\r", "module m\r", "x # c\r\r"}[zzverif.Choose("cr-prefix", 1+3*zzverif.Param("CRSEG", 0))]
+	line := pre + indent + kw + sep + nm + []string{"", ": a", "(x: int) {", " # t", "  ", "\t", "\r", ": a \r", ": [user, group#" + nm + "]  "}[zzverif.Choose("tail", 9)]
+	nameAt := len(pre) + len(indent) + len(kw) + len(sep)
 	other := "type " + zzverif.Str("other", 1, 2, verifIdent)
 	lines := []string{other, line}
 	l, c := ConstructLineAndColumnData(lines, 1, nm)
